@@ -167,6 +167,15 @@ def exact(x):
     return Fraction(x)
 
 
+def short(v):
+    """repr() of possibly gigantic exact values (Python refuses to print ints with > 4300 digits)."""
+    try:
+        s = str(v)
+    except ValueError:
+        return "<%s with a huge numerator>" % type(v).__name__
+    return s if len(s) < 120 else s[:60] + "..." + s[-40:]
+
+
 def deciding(e):
     from vf.sexpr import has
     return not has(e, {"cnum", "min", "max"})
@@ -205,7 +214,7 @@ def roundtrip(e, rec=None):
         try:
             b = ev(sb, Env(st, LinFuncs(3), numconv=exact))
         except Undefined as ex:
-            return ("value-differs", f"{s1!r}: original = {a!r}, re-parsed tree not evaluable ({ex}) at point {pt}")
+            return ("value-differs", f"{s1!r}: original = {short(a)}, re-parsed tree not evaluable ({ex}) at point {pt}")
         if rec is not None:
             rec.count("value_points_compared")
         if isinstance(a, np.ndarray) or isinstance(b, np.ndarray):
@@ -215,7 +224,7 @@ def roundtrip(e, rec=None):
             same = type(a) is type(b) or not (isinstance(a, bool) or isinstance(b, bool))
             same = same and a == b
         if not same:
-            return ("value-differs", f"{s1!r} -> {s2!r}: original = {a}, re-parsed = {b} at point {pt} "
+            return ("value-differs", f"{s1!r} -> {s2!r}: original = {short(a)}, re-parsed = {short(b)} at point {pt} "
                     f"(exact rational arithmetic)")
     if s1 != s2:
         return ("prints-differently", f"{s1!r} re-parsed prints {s2!r}")
